@@ -165,6 +165,74 @@ for arch, variant, dec, base_funcs in (("x64", "x64-linux", "x64dec", X64_CORE_F
           assumptions=["layout-kernel: a hint is honoured iff its page is free (Linux semantics without MAP_FIXED), otherwise the fallback is returned"],
           cex_schema=[("f", 8, 1), ("entry_bytes", 1, 24), ("layout", 1, 1), ("free", 8, 1), ("fallback", 8, 1), ("value", 1, 1)])
 
+# ---------------------------------------------------------------------------------------------
+# family C: the fake! macro and call counting (C06, C07, C08)
+# ---------------------------------------------------------------------------------------------
+import gen_arms
+_ARMS = None
+_ARMS_OK = None
+
+
+def arms():
+    global _ARMS
+    if _ARMS is None:
+        try:
+            _ARMS = gen_arms.parse_arms()
+        except Exception:
+            _ARMS = []
+    return _ARMS
+
+
+def gen_fake_arms():
+    """extra module for the scratch crate: only arms that passed the compile half are emitted"""
+    ok = [a for a in arms() if "unparsed" not in a and (_ARMS_OK is None or a["index"] in _ARMS_OK)]
+    text, _names = gen_arms.kani_module(ok)
+    return {"fake_arms": text}
+
+
+def _register_arm_harnesses():
+    kinds = {}
+    for a in arms():
+        if "unparsed" in a:
+            continue
+        kinds.setdefault(a["kind"], []).append(a)
+    names = []
+    for kind, group in kinds.items():
+        kname = re.sub(r'[^a-z0-9]+', "_", kind.lower()).strip("_") or "safe"
+        hname = "fake_arms_" + kname
+        names.append(hname)
+        H(hname, variant="x64-linux", modules=["rt"], mod="fake_arms", generated="gen_fake_arms",
+          covers_dynamic=True,
+          expected=[(r"fake$|::fake", r"called more times than expected|called with unexpected arguments|placeholder message")],
+          functions=["fake! arm expansions for `%s fn` (%d arms: macros.rs lines %s)" % (kind or "safe", len(group), ",".join(str(a["line"]) for a in group)),
+                     "the generated `fake` function of each arm", "CallCountVerifier (construction)"],
+          symbolic="per arm: arguments (a0: i32 behind &mut, b: i32), value X stored by `assign`, counter state c (all usize), budget N (all usize), truth of `when` (b > 0)",
+          bounds="one call step per arm from an ARBITRARY counter state (inductive step: no bound on N or on the number of earlier calls); unwind 64",
+          assumptions=["the counter can be put into an arbitrary state through the verifier's public `counter` field",
+                       "`when` is instantiated as `{ probe(); b > 0 }`, `assign` as a call that records that it ran, `returns` as `(*a).wrapping_add(b)`, `times` as a function reading a symbolic cell"])
+    return names
+
+
+ARM_HARNESSES = _register_arm_harnesses()
+
+H("verifier_quiet", variant="x64-linux", modules=["rt", "count"],
+  covers=["COVER: mismatch while already unwinding", "COVER: exact count, normal exit"],
+  forbidden=[(r"CallCountVerifier", r".", ["C06", "C05"], "CallCountVerifier::drop panics although the count matches or the thread is already unwinding (a second panic aborts the process)")],
+  functions=["CallCountVerifier::drop"], symbolic="count, expectation: all usize pairs; std::thread::panicking() symbolic",
+  bounds="none (all values)", assumptions=["std::thread::panicking is stubbed by a symbolic flag"])
+H("verifier_loud", variant="x64-linux", modules=["rt", "count"],
+  expected=[(r"CallCountVerifier", r".")], must_reach=[0],
+  functions=["CallCountVerifier::drop"], symbolic="all (count, expectation) with count != expectation, not unwinding",
+  bounds="none (all values)", assumptions=["std::thread::panicking is stubbed by a symbolic flag"])
+H("count_restarts_per_installation", variant="x64-linux", modules=["rt", "count"],
+  covers=["COVER: leftover count, two admitted calls", "COVER: scope exit after exactly N calls with a leftover count"],
+  forbidden=[(r"fake$|::fake", r"called more times than expected", ["C07"], "a call within the budget of THIS installation is refused because calls absorbed by an earlier installation of the same fake! expression still count"),
+             (r"CallCountVerifier", r".", ["C07"], "scope exit reports a count mismatch although exactly N calls were made during this installation")],
+  functions=["WhenCalledBuilder::will_execute", "fake! expansion (fn() -> bool, returns, times)", "CallCountVerifier::drop", "InjectorPP::drop"] + X64_CORE_FUNCS,
+  symbolic="leftover counter value c from earlier lifetimes: all usize; budget N in {1,2}; function address and bytes symbolic",
+  bounds="one installation from an arbitrary leftover counter state (inductive over lifetimes), N <= 2 calls; unwind 26",
+  assumptions=API_ASSUME)
+
 NOT_APPLICABLE = {}
 
 PROPERTIES = {
@@ -205,6 +273,29 @@ PROPERTIES = {
         quick=["x64_core_redirect", "arm_core_a32", "arm_core_t32_aligned"],
         thorough=["x64_core_redirect", "x64_core_boolean", "arm_core_a32", "arm_core_t32_aligned", "arm_core_t32_misaligned", "a64_core_redirect"],
         outside=["execution inside the fake", "vector registers as values (they are shown untouched by the instruction table, not tracked)"],
+    ),
+    "C06": dict(
+        level_text="Inductive step instead of call histories: for EVERY arm of fake! that has `times` (arms are read from the current macros.rs), one call from an arbitrary counter state c with an arbitrary budget N (all usize values): condition false -> the call does not return, has no side effect, and the condition was evaluated while the counter still read c; condition true and c >= N -> does not return, no side effect; condition true and c < N -> returns and the counter is exactly c+1. Scope exit: CallCountVerifier::drop panics iff not already unwinding and count != N, for all pairs. By induction over calls this is 'exactly N admitted' with no bound on N or k.",
+        level_note="Concurrency clause: the solver cannot tell fetch_add from load+store sequentially; a separate premise (not a solver step) inspects the nightly MIR of every generated fake body and requires exactly one access to FAKE_COUNTER, an atomic fetch_add. Whether a rejected call that panics afterwards bumped the counter is unobservable without unwinding. The panic message text ('naming both numbers') is a native premise.",
+        quick=["verifier_quiet", "verifier_loud"] + ARM_HARNESSES,
+        thorough=["verifier_quiet", "verifier_loud"] + ARM_HARNESSES,
+        premises=["premise_c08_compile", "premise_counter_is_single_rmw", "premise_verifier_message"],
+        outside=["thread interleavings of the counter (premise: single atomic RMW)", "unwinding after a rejected call"],
+    ),
+    "C07": dict(
+        level_text="Inductive over lifetimes: the counter of a fake!(.., times: N) call site is put into an ARBITRARY state c (whatever earlier installations of the same expression left behind), the pair is installed through when_called(..).will_execute(..), and the solver decides that the counter reads 0 on return, that the first N calls are admitted and that scope exit is silent after exactly N calls - for all c in usize, N in {1,2}.",
+        level_note="Because the leftover state is arbitrary, the number of earlier lifetimes and of calls in them is unbounded. The injector is created before the counter is disturbed (Kani aliasing note, DESIGN.md). Counterexamples are replayed natively (same helper evaluated in two lifetimes).",
+        quick=["count_restarts_per_installation"],
+        thorough=["count_restarts_per_installation"],
+        outside=["budgets N > 2 in the end-to-end harness (the per-call step for all N is C06)"],
+    ),
+    "C08": dict(
+        level_text="Every arm found in the current macro_rules! fake (52 today; parsed at check time) is (1) type-checked on its own by rustc from a generated stand-alone instantiation (compiler verdict, reported as a premise; a rejected arm is the violation and the generated file the replay) and (2) driven by the solver through one call step against a reference meaning with symbolic arguments, counter, budget and assigned value: `when` guards; budget checked before effects; `assign` runs before `returns`; `returns` is evaluated per call with the arguments in scope; a refused call has no side effect; the recorded signature is the type name of the declared fn type; arms without `times` produce the dummy verifier.",
+        level_note="Non-unwinding ABIs are fine under the solver (nothing unwinds in the model). Generic templates: arguments (a: &mut i32, b: i32), i32 / unit results.",
+        quick=ARM_HARNESSES,
+        thorough=ARM_HARNESSES,
+        premises=["premise_c08_compile"],
+        outside=["argument/return types other than the template's", "more than one call step per arm (the step is inductive)"],
     ),
     "C10": dict(
         level_text="Stub half: the boolean trampoline is interpreted from a fully symbolic register file / stack pointer / return address (x86-64: `mov rax,imm32; ret`; AArch64: `movz w0,#v; ret`): the solver decides that the low byte of the result register equals the value, control returns to the caller's return address, the stack pointer is as after a normal return, no memory is written and no other register changes, for every placement. Gate half: see C10 gate harnesses (added with the signature-gate family).",
@@ -254,6 +345,124 @@ def premise_only_static_is_lock(work, tier):
     ok = len(outside_macros) == 1 and outside_macros[0][2] == "LOCK_FUNCTION"
     return {"name": "only_static_is_lock", "ok": True if ok else None, "evaluations": len(st), "distinct": len(outside_macros),
             "detail": "statics outside macros.rs: %r" % (outside_macros,), "samples": [list(x) for x in st[:3]]}
+
+
+def _dep_rlibs(work):
+    """build a tiny crate that depends on the repo; return (deps dir, injectorpp rlib)"""
+    import native, glob
+    d = os.path.join(work, "c08dep")
+    if not os.path.isdir(d):
+        os.makedirs(os.path.join(d, "src"))
+        open(os.path.join(d, "Cargo.toml"), "w").write('[package]\nname = "c08dep"\nversion = "0.0.0"\nedition = "2021"\n[dependencies]\ninjectorpp = { path = "%s" }\n[workspace]\n' % regen.REPO)
+        open(os.path.join(d, "src", "lib.rs"), "w").write("pub use injectorpp;\n")
+        lock = os.path.join(regen.REPO, "Cargo.lock")
+        if os.path.isfile(lock):
+            shutil.copy(lock, os.path.join(d, "Cargo.lock"))
+        p = subprocess.run(["cargo", "build", "--offline", "-q"], cwd=d, env=native.ENV, stdout=subprocess.PIPE, stderr=subprocess.STDOUT, text=True)
+        if p.returncode != 0:
+            raise RuntimeError("cannot build the repository crate: " + p.stdout[-2000:])
+    deps = os.path.join(d, "target", "debug", "deps")
+    rl = sorted(glob.glob(os.path.join(deps, "libinjectorpp-*.rlib")))
+    if not rl:
+        raise RuntimeError("injectorpp rlib not found")
+    return deps, rl[-1]
+
+
+def premise_c08_compile(work, tier):
+    """compile half of C08: rustc type-checks one generated instantiation per arm"""
+    global _ARMS_OK
+    import native
+    deps, rlib = _dep_rlibs(work)
+    cdir = os.path.join(work, "c08cases")
+    os.makedirs(cdir, exist_ok=True)
+    ok, bad, samples = set(), [], []
+    al = arms()
+    if not al:
+        return {"name": "c08_compile", "ok": None, "detail": "macro_rules! fake could not be parsed"}
+    for a in al:
+        if "unparsed" in a:
+            bad.append({"what": "fake! arm at macros.rs:%d has a pattern the generator cannot instantiate: %s" % (a["line"], a["unparsed"]), "arm": a["index"]})
+            continue
+        src = os.path.join(cdir, "arm_%02d.rs" % a["index"])
+        open(src, "w").write(gen_arms.compile_case(a))
+        p = subprocess.run(["rustc", "--edition", "2021", "--crate-type", "lib", "--emit=metadata", "-o", os.path.join(cdir, "arm_%02d.rmeta" % a["index"]),
+                            "-L", "dependency=" + deps, "--extern", "injectorpp=" + rlib, "--cap-lints", "allow", src],
+                           env=native.ENV, stdout=subprocess.PIPE, stderr=subprocess.STDOUT, text=True)
+        if p.returncode == 0:
+            ok.add(a["index"])
+            if len(samples) < 3:
+                samples.append({"arm": a["index"], "macros_rs_line": a["line"], "kind": a["kind"] or "safe", "options": a["opts"], "rustc": "accepted"})
+        else:
+            err = [l for l in p.stdout.splitlines() if l.startswith("error")]
+            bad.append({"what": "fake! arm at macros.rs:%d (%s fn, %s, options %s) is rejected by rustc for a well-typed use: %s" % (
+                a["line"], a["kind"] or "safe", "unit" if a["unit"] else "value-returning", "+".join(a["opts"]) or "none", (err[0] if err else p.stdout[:200])),
+                "arm": a["index"], "instantiation": gen_arms.compile_case(a)})
+    _ARMS_OK = ok
+    return {"name": "c08_compile", "ok": not bad, "evaluations": len(al), "distinct": len(ok), "violations": bad,
+            "detail": "%d arms parsed from macros.rs, %d accepted by rustc, %d rejected" % (len(al), len(ok), len(bad)), "samples": samples}
+
+
+def premise_counter_is_single_rmw(work, tier):
+    """C06 concurrency premise (NOT a solver step): in the nightly MIR of every `times` arm the generated
+    `fake` body touches FAKE_COUNTER exactly once, through AtomicUsize::fetch_add."""
+    import native
+    al = [a for a in arms() if "unparsed" not in a and "times" in a["opts"] and (_ARMS_OK is None or a["index"] in _ARMS_OK)]
+    d = os.path.join(work, "mirprem")
+    os.makedirs(os.path.join(d, "src"), exist_ok=True)
+    open(os.path.join(d, "Cargo.toml"), "w").write('[package]\nname = "mirprem"\nversion = "0.0.0"\nedition = "2021"\n[dependencies]\ninjectorpp = { path = "%s" }\n[workspace]\n' % regen.REPO)
+    body = ["#![allow(unused, unused_unsafe)]\nuse injectorpp::interface::injector::*;\nfn effect(a: &mut i32) { *a = 7; }\nfn probe() {}\nfn budget() -> usize { 1 }\n"]
+    for a in al:
+        body.append("pub fn build_%d() -> (FuncPtr, CallCountVerifier) {\n    %s\n}\n" % (a["index"], gen_arms.invocation(a)))
+    open(os.path.join(d, "src", "lib.rs"), "w").write("".join(body))
+    lock = os.path.join(regen.REPO, "Cargo.lock")
+    if os.path.isfile(lock):
+        shutil.copy(lock, os.path.join(d, "Cargo.lock"))
+    env = dict(native.ENV)
+    p = subprocess.run(["cargo", "+nightly", "rustc", "--offline", "--lib", "--", "-Zunpretty=mir"], cwd=d, env=env,
+                       stdout=subprocess.PIPE, stderr=subprocess.PIPE, text=True)
+    if p.returncode != 0 or "fn " not in p.stdout:
+        return {"name": "counter_is_single_rmw", "ok": None, "detail": "MIR dump failed: " + p.stderr[-500:]}
+    # split MIR into items; the nested `fn fake(` that follows `fn build_<i>(` belongs to arm i
+    items = re.split(r'\n(?=fn |static |alloc\d+ \()', p.stdout)
+    owner, fakes = None, {}
+    for it in items:
+        m = re.match(r'fn build_(\d+)\(', it)
+        if m:
+            owner = int(m.group(1))
+            continue
+        if re.match(r'fn fake\(', it) and owner is not None and owner not in fakes:
+            fakes[owner] = it
+    bad, good, samples = [], 0, []
+    for a in al:
+        b = fakes.get(a["index"])
+        if b is None:
+            bad.append("arm %d (macros.rs:%d): generated fake body not found in MIR" % (a["index"], a["line"]))
+            continue
+        calls = [l.strip() for l in b.splitlines() if re.search(r'Atomic::<usize>::\w+\(|AtomicUsize::\w+\(', l)]
+        refs = [l for l in b.splitlines() if re.search(r'const \{alloc\d+: &(std::sync::atomic::)?Atomic<usize>\}', l)]
+        rmw = [l for l in calls if "::fetch_add(" in l]
+        other = [l for l in calls if "::fetch_add(" not in l]
+        if len(rmw) == 1 and not other and len(refs) == 1:
+            good += 1
+            if len(samples) < 2:
+                samples.append({"arm": a["index"], "mir_call": rmw[0][:160]})
+        else:
+            bad.append("arm %d (macros.rs:%d): the fake body touches its call counter through %d reference(s) and %d atomic call(s) %r - not exactly one atomic fetch_add, so concurrent callers can be lost or double-admitted" % (
+                a["index"], a["line"], len(refs), len(calls), [re.sub(r'.*(Atomic::<usize>::\w+).*', r'\1', c) for c in calls]))
+    return {"name": "counter_is_single_rmw", "ok": not bad, "evaluations": len(al), "distinct": good, "violations": bad,
+            "detail": "%d `times` arms: %d with exactly one atomic fetch_add on the counter" % (len(al), good), "samples": samples}
+
+
+def premise_verifier_message(work, tier):
+    """native premise: the scope-exit panic message names both numbers (sampled values; format string)"""
+    src = open(os.path.join(regen.REPO, "src", "interface", "verifier.rs")).read()
+    m = re.search(r'panic!\(\s*"([^"]*)"', src)
+    if not m:
+        return {"name": "verifier_message", "ok": None, "detail": "panic! format string not found in verifier.rs"}
+    fmt = m.group(1)
+    ok = "{expected}" in fmt and "{call_times}" in fmt
+    return {"name": "verifier_message", "ok": True if ok else None, "evaluations": 1, "distinct": 1,
+            "detail": "format string: %r" % fmt, "samples": [fmt]}
 
 
 def _native(work, scenario, tag):
